@@ -70,6 +70,34 @@ def rule_CF(ctx, tier):
     for name in ws:
         if name not in of:
             rr.fail("patch:extra-write:%s" % name, "patch_with_options writes Config.%s, which is not a command-line option" % name, where=b.span)
+    # the sibling: teos-cli patches its own two-field Config from its own Opt by the same rule (CLI value if given, else unchanged)
+    copt, ccfg = P.adts.get("teos::cli_config::Opt"), P.adts.get("teos::cli_config::Config")
+    cb = P.bodies.get("teos::cli_config::Config::patch_with_options")
+    if not copt or not ccfg or cb is None:
+        rr.anchor_missing("teos::cli_config::{Opt, Config, Config::patch_with_options}")
+    else:
+        cof = {f["name"]: f for f in copt["variants"][0]["fields"]}
+        cws = _writes(ctx, cb)
+        for f_ in ccfg["variants"][0]["fields"]:
+            name = f_["name"]
+            if name not in cof or not cof[name]["ty"].startswith("std::option::Option<"):
+                rr.fail("cli-patch:no-option:%s" % name, "teos-cli's Config.%s has no optional command-line twin in its Opt" % name)
+                continue
+            w = cws.get(name, [])
+            if len(w) != 1:
+                rr.fail("cli-patch:writes:%s=%d" % (name, len(w)), "cli_config::Config::patch_with_options writes %s %d times" % (name, len(w)), where=cb.span)
+                continue
+            bb, v = w[0]
+            sv = og.show(v)
+            some = any((fc[0] == "truth" and fc[2] is True and has_call(fc[1], "Option", "is_some") and ("f:" + name) in og.show(fc[1])) or
+                       (fc[0] == "variant" and fc[2] == "Some" and og.show(fc[1]) == "param#2@patch_with_options.f:%s" % name) for fc in facts_at(ctx, cb, bb))
+            if some and sv == "param#2@patch_with_options.f:%s.v:Some.f:0" % name:
+                rr.ok("teos-cli %s: CLI value if given, else unchanged" % name)
+            else:
+                rr.fail("cli-patch:option:%s" % name, "teos-cli's Config.%s is set to `%s`%s; expected the command-line value under is_some" % (name, sv[:80], "" if some else " without the is_some guard"), where=cb.line_of(bb))
+        for name in cws:
+            if name not in {f_["name"] for f_ in ccfg["variants"][0]["fields"]}:
+                rr.fail("cli-patch:extra-write:%s" % name, "cli_config::Config::patch_with_options writes %s" % name, where=cb.span)
     # file layer: struct-level serde default => missing keys fall back to Config::default
     callers = {c for c, bb in P.callers().get("<teos::config::Config as std::default::Default>::default", [])}
     if any("Deserialize" in c and "teos::config::Config" in c for c in callers):
@@ -263,6 +291,24 @@ def rule_CF(ctx, tier):
         rr.ok("verify writes only btc_network (normalisation) and btc_rpc_port (default when unset)")
     else:
         rr.fail("verify-rewrites:%s" % ",".join(extra), "Config::verify changes the configured value of %s: the tower then runs with a value other than the one the operator set (and the one the documentation promises)" % ", ".join("`%s`" % f for f in extra), where=v.span)
+    # the file layer: teosd and teos-cli read the SAME <data_dir>/teos.toml, each into its own struct, and `from_file` answers a file
+    # that fails to parse with the defaults. So both structs must take a file that has keys they do not know (each other's) and
+    # lacks keys they do know: no `unknown_field` and no `missing_field` error in their generated deserialisers.
+    for cfgty in ("teos::config::Config", "teos::cli_config::Config"):
+        fam = [bid for bid in P.bodies if ("Deserialize<'de> for %s>::deserialize" % cfgty) in bid]
+        if not fam:
+            rr.anchor_missing("derived Deserialize of %s" % cfgty)
+            continue
+        badc = {}
+        for bid in fam:
+            for bb, t in P.bodies[bid].calls():
+                last = (call_target(t) or "").split("::")[-1]
+                if last in ("unknown_field", "missing_field", "unknown_variant"):
+                    badc.setdefault(last, P.bodies[bid].line_of(bb))
+        if not badc:
+            rr.ok("%s: unknown keys ignored, absent keys defaulted (%d generated bodies)" % (cfgty, len(fam)))
+        for last, wh in sorted(badc.items()):
+            rr.fail("file-layer-voided:%s:%s" % (cfgty.split("::")[-2], last), "the deserialiser of `%s` raises `%s`: the configuration file is shared by teosd and teos-cli, so any ordinary teos.toml then fails to parse for this reader and `from_file` silently falls back to the defaults — the file layer of 'command line over file over defaults' is gone" % (cfgty, last), where=wh)
     # unknown network => Err
     unk = [bb for bb in errs if not (auth_possible(bb) & {"Invalid", "Multiple"})]
     if unk:
